@@ -189,6 +189,14 @@ theorem C19_deep_distance_sets (cfg : DCfg) (hp : Diff.Plain cfg) (al : Align) (
     (deepDistance cfg al hashOf (.set xs) (.set ys)).1 + 2 ≤ (deepDistance cfg al hashOf (.set xs) (.set ys)).2 :=
   set_deep_distance cfg hp al hashOf xs ys hbx hby
 
+/-- the same for frozensets -/
+theorem C19_deep_distance_frozensets (cfg : DCfg) (hp : Diff.Plain cfg) (al : Align) (hashOf : PyVal → String)
+    (xs ys : List PyVal) (hbx : ∀ x ∈ xs, isBasic x = true) (hby : ∀ y ∈ ys, isBasic y = true) :
+    (deepDistance cfg al hashOf (.frozenset xs) (.frozenset ys)).1 = itemLenL (setRemovedL hashOf xs ys) + itemLenL (setAddedL hashOf xs ys) ∧
+    (deepDistance cfg al hashOf (.frozenset xs) (.frozenset ys)).2 = xs.length + ys.length + 2 ∧
+    (deepDistance cfg al hashOf (.frozenset xs) (.frozenset ys)).1 + 2 ≤ (deepDistance cfg al hashOf (.frozenset xs) (.frozenset ys)).2 :=
+  frozenset_deep_distance cfg hp al hashOf xs ys hbx hby
+
 /-- **positive when the diff of two sets is non-empty**, for scalar members other than `None` (which counts nothing: F17a) -/
 theorem C19_deep_distance_positive_sets (cfg : DCfg) (hp : Diff.Plain cfg) (al : Align) (hashOf : PyVal → String)
     (xs ys : List PyVal) (hbx : ∀ x ∈ xs, isBasic x = true ∧ x ≠ .none) (hby : ∀ y ∈ ys, isBasic y = true ∧ y ≠ .none)
